@@ -131,9 +131,23 @@ PROPS = {
              COMMON_ASSUME + ["pion/dtls drops records above its 8 KiB receive buffer while Write succeeds: larger DTLS messages are sent, compared if they arrive, only counted if not",
                               "a 65535-byte value cannot travel end to end (header + set header + prefix leave 65512): that boundary is C15's and C09's"],
              "runtime monitor: sent-vs-delivered comparison over real sockets on 8 transport configurations; race detector"),
+    "C12": P(True, (16, 16), 16, (1800, 7200), 60, 20, "exploration",
+             "one evaluation = one run of a real collecting process (tcp / tls / udp) with 1..64 concurrent raw clients, each sending a "
+             "template and 0..200 uniquely numbered messages (domain = client, counter in header and in a field) with pacing jitter, abrupt "
+             "closes mid-message, a consumer with random pauses that never stops draining, GOMAXPROCS in {1,2,4,16}, and Stop() during "
+             "traffic in half of the runs. Offline checks over the event log: no duplicate delivery, nothing delivered that was not written, "
+             "per-client order (over tcp/tls also no gap), every acknowledged message of a gracefully closed tcp/tls connection delivered "
+             "(runs without early Stop), GetNumConnToCollector() back to 0, Stop returns (30 s bound, normal ms), afterwards no goroutine with "
+             "a pkg/collector frame, the port refuses connections and can be re-bound; race detector reports with a go-ipfix frame are "
+             "violations. Non-trivial = deliveries of >= 2 clients interleaved; distinct by hash of the delivery interleaving.",
+             COMMON_ASSUME + ["the goroutine that calls Stop() first waits for GetAddress() != nil (the only readiness signal the API offers)",
+                              "udp runs where fewer than half of the datagrams are delivered are inconclusive, not held", "DTLS is excluded by the property"],
+             "runtime monitor: offline exactly-once/order checker over a recorded event log + goroutine/socket leak probes; race detector; GOMAXPROCS sweep"),
 }
 
 LEVEL_TEXT = {
+    "C12": "Held on every run explored. Schedules are sampled (client counts, pacing, GOMAXPROCS, Stop timing), not enumerated; unique "
+           "message ids make the exactly-once and order check exact on each recorded run.",
     "C01": "Held on every case explored on each of the 8 transport configurations, with both processes running their real goroutines "
            "under the race detector. The property is quantified over inputs and configurations; this is direct observation of the API "
            "boundary the user relies on.",
